@@ -11,9 +11,33 @@ KINDS = ("under_constrained", "over_constrained", "returned_values_violate", "sp
 
 def _kernel(cfg):
     from vf import swzkernel as K
-    w, signed, lo, hi = cfg
-    r, m, n, dw = K.swizzle_forces_target(w, signed, lo, hi)
-    return {"cfg": cfg, "verdict": r, "nodes": n, "d_width": dw, "model": str(m) if m is not None else None}
+    import z3
+    if not isinstance(cfg[2], list):
+        w, signed, lo, hi = cfg
+        ranges, pick = [[lo, hi]], 0
+        r, m, n, dw = K.swizzle_forces_target(w, signed, lo, hi)
+    else:
+        w, signed, ranges, pick = cfg
+        r, m, n, dw = K.swizzle_forces_target(w, signed, 0, 0, ranges=ranges, pick=pick)
+    out = {"cfg": cfg, "verdict": r, "nodes": n, "d_width": dw, "model": str(m) if m is not None else None}
+    if r == "sat":
+        # replay on the real code with the real Boolector and the concrete target / field value of the model
+        def sval(name, bits):
+            for d in m.decls():
+                if d.name() == name:
+                    v = m[d].as_long()
+                    return v - (1 << bits) if v >> (bits - 1) else v
+            return 0
+        from vf import symex
+        t = sval("t", symex.W)
+        fv = sval("f", w) if signed else [m[d].as_long() for d in m.decls() if d.name() == "f"][0]
+        out["t"], out["f"] = t, fv
+        try:
+            out["reproduced"] = K.replay_swizzle_concrete(w, signed, ranges, pick, t, fv)
+        except Exception as e:
+            out["reproduced"] = None
+            out["replay_error"] = "%s: %s" % (type(e).__name__, e)
+    return out
 
 
 def kernel_cfgs(t):
@@ -28,6 +52,22 @@ def kernel_cfgs(t):
             for lo, hi in doms:
                 if lo < hi:
                     out.append((w, signed, lo, hi))
+            # multi-range domains (inside/rangelist, != holes, enum-like value sets): every range may be picked
+            if w >= 3:
+                q = (hi_t - lo_t) // 8
+                multis = [[[lo_t, lo_t + 1], [hi_t - 1, hi_t]], [[lo_t, lo_t + max(1, q)], [lo_t + 3 * q + 1, lo_t + 4 * q], [hi_t - q, hi_t]],
+                          [[lo_t + 1, lo_t + 2], [lo_t + 4, lo_t + 5]]]
+                if signed:
+                    multis.append([[-2, -1], [1, 2]])
+                    multis.append([[lo_t, -1], [1, hi_t]])
+                else:
+                    multis.append([[0, 3], [hi_t // 2 + 1, hi_t // 2 + 4]])
+                for rs in multis:
+                    ok = all(a <= b for a, b in rs) and all(rs[i][1] < rs[i + 1][0] for i in range(len(rs) - 1)) and rs[0][0] >= lo_t and rs[-1][1] <= hi_t
+                    if ok:
+                        for k in range(len(rs)):
+                            if rs[k][0] < rs[k][1]:
+                                out.append((w, signed, rs, k))
     return out
 
 
@@ -39,7 +79,9 @@ def main():
                             "feasible value of each field lies in the domain its target is drawn from (Ref /\\ x not in D unsat); (iii) for every target t "
                             "of a domain [lo,hi] the constraints the real _build_swizzle_constraints(f, t, d_width) produces force f == t inside the "
                             "domain (t symbolic, widths 1..64); (iv) from the solver trace: ordered groups are tried in directive order inside one "
-                            "solver context, a randomising constraint is asserted only after a SAT check that included it, the final check is SAT. "
+                            "solver context, the groups place every 'before' field of a solve_order statement (read from the program text) in an earlier "
+                            "group than its 'after' fields whenever both are solver variables of one rand set, a randomising constraint is asserted "
+                            "only after a SAT check that included it, the final check is SAT. "
                             "From (ii)-(iv) and the RNG's uniformity each feasible value of the earlier variable has probability >= 1/|D| independent "
                             "of the later variables; the measured-frequency statement is NOT claimed",
                 functions=["vsc.constraints.solve_order", "vsc.model.constraint_solve_order_model", "vsc.visitors.expand_solve_order_visitor",
@@ -50,10 +92,19 @@ def main():
                "target value stay symbolic; module-level `int` stand-ins as in E3", "uniformity of random.Random.randint is the RNG's contract, not checked")
     t = tier()
     chk.bound("ordering programs: single fields, lists, chains a->b->c, ordered variables of 1..4 bits, 3 non-random values, 3 call kinds",
-              "kernel: widths %s, both signednesses, 7 domain shapes each" % ("1..64" if t == "thorough" else "{1,2,3,4,7,8,9,16,31,32,33,63,64}"))
+              "kernel: widths %s, both signednesses, 7 single-range and up to 5 multi-range domain shapes each (every range picked)" % ("1..64" if t == "thorough" else "{1,2,3,4,7,8,9,16,31,32,33,63,64}"))
     specs = gen.c20_programs(t, seed())
     chk.extra["rule"] = "one evaluation = one call decided (or one kernel configuration); distinct = distinct (program, call) / configurations"
-    e1run.run_specs(chk, specs, KINDS, opts={"hooks": [hooks.bounds_hook, hooks.order_hook]})
+    npairs = [0, 0]
+
+    def xh(spec, r):
+        npairs[0] += sum(c.get("order_pairs_checked", 0) for c in r["calls"])
+        npairs[1] += sum(c.get("ordered_randsets", 0) for c in r["calls"])
+    e1run.run_specs(chk, specs, KINDS, opts={"hooks": [hooks.bounds_hook, hooks.order_hook]}, extra_handler=xh)
+    chk.extra["directive_pairs_checked_against_groups"] = npairs[0]
+    chk.extra["ordered_randsets_traced"] = npairs[1]
+    if npairs[0] == 0 or npairs[1] == 0:
+        chk.harness_error("order hook vacuous: %s directive pairs, %s ordered rand sets" % tuple(npairs))
     cfgs = kernel_cfgs(t)
     res = parmap(_kernel, cfgs)
     nk = 0
@@ -65,8 +116,15 @@ def main():
         chk.q(r["verdict"] if r["verdict"] in ("unsat", "sat") else "unknown")
         nk += 1
         if r["verdict"] == "sat":
-            chk.violation({"kind": "swizzle_target", "signed": cfg[1]}, "swizzle constraints for width %d %s domain [%d,%d] do not force the field to the target: %s" % (
-                cfg[0], "signed" if cfg[1] else "unsigned", cfg[2], cfg[3], r["model"]), {"engine": "kernel", "cfg": cfg, "model": r["model"]})
+            if r.get("reproduced") is not True:
+                chk.harness_error("kernel counterexample did not replay on the real Boolector: %s" % (r,))
+                continue
+            dom = [[cfg[2], cfg[3]]] if not isinstance(cfg[2], list) else cfg[2]
+            chk.violation({"kind": "swizzle_target", "signed": cfg[1], "multi_range": len(dom) > 1},
+                          "swizzle constraints for a %d-bit %s field with domain %s (range %s picked, target %s) do not force the field to the target: "
+                          "f == %s stays possible (replayed with the real Boolector)" % (cfg[0], "signed" if cfg[1] else "unsigned", dom,
+                                                                                         cfg[3] if len(dom) > 1 else 0, r.get("t"), r.get("f")),
+                          {"engine": "kernel", "cfg": cfg, "model": r["model"]})
         elif r["verdict"] != "unsat":
             chk.note_inconclusive("kernel %s: %s" % (cfg, r["verdict"]))
     chk.extra["kernel_configurations"] = nk
